@@ -52,6 +52,18 @@ type scenario struct {
 	PreOld   bool     // a LEAVING instance "old" with tokens waits to hand them over
 	Life     []act
 	LifeSpan time.Duration
+	// the restarted process is configured with this many tokens (0 = unchanged): the entry it finds holds fewer
+	RestartTokens int
+	// tokens of the instance "other" (default staticTokens); dense, so that a generator handed a wrong
+	// taken list collides at once
+	OtherTokens []uint32
+}
+
+func (sc scenario) otherTokens() []uint32 {
+	if len(sc.OtherTokens) > 0 {
+		return sc.OtherTokens
+	}
+	return staticTokens
 }
 
 var staticTokens = []uint32{1, 2, 3, 4}
@@ -147,7 +159,7 @@ func run(t *testing.T, sc scenario, crashAt int, after bool) (out outcome) {
 		ctx := context.Background()
 		_ = store.CAS(ctx, lcx.RingKey, func(interface{}) (interface{}, bool, error) {
 			d := ring.NewDesc()
-			d.AddIngester("other", "other:1", "z", staticTokens, ring.ACTIVE, time.Now(), false, time.Time{}, nil)
+			d.AddIngester("other", "other:1", "z", sc.otherTokens(), ring.ACTIVE, time.Now(), false, time.Time{}, nil)
 			if sc.PreOld {
 				d.AddIngester("old", "old:1", "z", oldTokens, ring.LEAVING, time.Now(), false, time.Time{}, nil)
 			}
@@ -188,6 +200,9 @@ func run(t *testing.T, sc scenario, crashAt int, after bool) (out outcome) {
 		out.nontrivial = !leftOK || len(left.Tokens) == 0 || left.State == ring.JOINING || left.State == ring.LEAVING
 		time.Sleep(3 * time.Second)
 		// ---- the new incarnation
+		if sc.RestartTokens > 0 {
+			cfg.NumTokens = sc.RestartTokens
+		}
 		l2, err = lcx.New(cfg, store)
 		if err != nil {
 			out.failure = fmt.Sprintf("building the new incarnation: %v", err)
@@ -227,8 +242,12 @@ func run(t *testing.T, sc scenario, crashAt int, after bool) (out outcome) {
 			out.failure = "after the restart the instance has no ring entry"
 		case final.State != ring.ACTIVE || l2.State() != ring.ACTIVE:
 			out.failure = fmt.Sprintf("after the restart the instance is %v in the ring and %v locally, not ACTIVE", final.State, l2.State())
-		case len(final.Tokens) != cfg.NumTokens:
+		case sc.RestartTokens == 0 && len(final.Tokens) != cfg.NumTokens:
 			out.failure = fmt.Sprintf("after the restart the instance holds %d tokens %v, configured %d", len(final.Tokens), final.Tokens, cfg.NumTokens)
+		case sc.RestartTokens > 0 && (len(final.Tokens) > cfg.NumTokens || len(final.Tokens) < len(left.Tokens)):
+			// whether a grown token count is topped up depends on the state of the entry found (the statement
+			// speaks of restarts with the same configuration): only keeping and not colliding are asserted
+			out.failure = fmt.Sprintf("after the restart the instance holds %d tokens %v; the entry held %d, configured now %d", len(final.Tokens), final.Tokens, len(left.Tokens), cfg.NumTokens)
 		case !sort.SliceIsSorted(final.Tokens, func(a, b int) bool { return final.Tokens[a] < final.Tokens[b] }):
 			out.failure = fmt.Sprintf("tokens not sorted: %v", final.Tokens)
 		}
@@ -242,7 +261,7 @@ func run(t *testing.T, sc scenario, crashAt int, after bool) (out outcome) {
 			}
 		}
 		for _, tk := range final.Tokens {
-			for _, st := range staticTokens {
+			for _, st := range sc.otherTokens() {
 				if tk == st {
 					out.failure = fmt.Sprintf("after the restart the instance holds token %d of instance 'other'", tk)
 					return
@@ -289,6 +308,17 @@ func scenarios(full lcx.Cfg, basic lcx.Cfg) []scenario {
 		c = base
 		c.Unregister, c.TokensPath = true, "x"
 		out = append(out, scenario{Name: kind + "/leave-unregistering", Cfg: c, Life: []act{s(9 * time.Second), {Kind: "stop"}, s(8 * time.Second)}, LifeSpan: 19 * time.Second})
+		// the configured token count grows across the restart: the missing tokens are generated against
+		// everything the ring holds ("other" holds 20 of the 32 tokens of the generator's space)
+		c = base
+		c.Unregister, c.TokensPath = false, ""
+		var dense []uint32
+		for tk := uint32(0); tk < 32; tk++ {
+			if tk%8 < 5 {
+				dense = append(dense, tk)
+			}
+		}
+		out = append(out, scenario{Name: kind + "/restart-with-more-tokens", Cfg: c, OtherTokens: dense, RestartTokens: c.NumTokens + 3, Life: []act{s(9 * time.Second), {Kind: "stop"}, s(8 * time.Second)}, LifeSpan: 19 * time.Second})
 		if !base.Basic {
 			c = base
 			c.JoinAfter, c.TokensPath = 20*time.Second, ""
@@ -339,7 +369,7 @@ func TestCrashPointsEnum(t *testing.T) {
 		vx.Note("%s: %d crash points", sc.Name, points)
 		vx.Sample("crash_scenario", map[string]any{"scenario": sc.Name, "crash_points": points, "config": sc.Cfg.String()})
 	}
-	vx.Exhaustive("every store write (before and after its commit) of the scenarios {fresh join, join with observe period, restart from tokens file, leave keeping the entry, leave unregistering} x {full, basic lifecycler} and the token claim of the full lifecycler, one configuration per kind")
+	vx.Exhaustive("every store write (before and after its commit) of the scenarios {fresh join, join with observe period, restart from tokens file, leave keeping the entry, leave unregistering, restart configured with more tokens than the entry holds} x {full, basic lifecycler} and the token claim of the full lifecycler, one configuration per kind")
 }
 
 // TestCrashPointsRapid: generated configurations; for each, every crash point of a drawn scenario.
@@ -379,7 +409,7 @@ func TestCrashPointsRapid(t *testing.T) {
 func TestStoreFaultsEnum(t *testing.T) {
 	idx := 0
 	for _, basicKind := range []bool{false, true} {
-		for _, wipe := range []string{"none", "at-window-start", "while-leaving"} {
+		for _, wipe := range []string{"none", "at-window-start", "while-leaving", "own-entry-only"} {
 			if wipe == "while-leaving" && basicKind {
 				continue // the basic lifecycler has no leaving phase of its own
 			}
@@ -402,7 +432,7 @@ func TestStoreFaultsEnum(t *testing.T) {
 			}
 		}
 	}
-	vx.Exhaustive("store faults: {full, basic} x {no wipe, wipe when the window opens, wipe while leaving} x windows of 0..4 failing store calls starting at the 1st..3rd call after the lifecycler is active")
+	vx.Exhaustive("store faults: {full, basic} x {no wipe, whole ring key wiped when the window opens, wiped while leaving, only the instance's own entry lost (another member stays)} x windows of 0..4 failing store calls starting at the 1st..3rd call after the lifecycler is active")
 }
 
 func storeFault(t *testing.T, basicKind bool, wipe string, a, w int) (failure string) {
@@ -410,6 +440,12 @@ func storeFault(t *testing.T, basicKind bool, wipe string, a, w int) (failure st
 		store, closer := consul.NewInMemoryClient(ring.GetCodec(), log.NewNopLogger(), nil)
 		b.Cleanup(func() { _ = closer.Close() })
 		ctx := context.Background()
+		// another member that stays in the ring throughout
+		_ = store.CAS(ctx, lcx.RingKey, func(interface{}) (interface{}, bool, error) {
+			d := ring.NewDesc()
+			d.AddIngester("other", "other:1", "z", []uint32{28, 29, 30, 31}, ring.ACTIVE, time.Now(), false, time.Time{}, nil)
+			return d, true, nil
+		})
 		f := fakekv.NewFaulty(store)
 		hb := 4 * time.Second
 		cfg := lcx.Cfg{ID: "ing-1", Basic: basicKind, NumTokens: 4, JoinAfter: time.Second, HBPeriod: hb, GenSeed: 5, GenSpace: 32, RegState: ring.ACTIVE, FinalSleep: 30 * time.Second, Unregister: false}
@@ -446,7 +482,17 @@ func storeFault(t *testing.T, basicKind bool, wipe string, a, w int) (failure st
 				time.Sleep(500 * time.Millisecond)
 				vx.Wait()
 			}
-			if err := store.Delete(ctx, lcx.RingKey); err != nil {
+			if wipe == "own-entry-only" {
+				// the ring keeps its other member; only this instance's entry is lost (forgotten by somebody)
+				err = store.CAS(ctx, lcx.RingKey, func(v interface{}) (interface{}, bool, error) {
+					d := ring.GetOrCreateRingDesc(v)
+					delete(d.Ingesters, "ing-1")
+					return d, true, nil
+				})
+			} else {
+				err = store.Delete(ctx, lcx.RingKey)
+			}
+			if err != nil {
 				failure = fmt.Sprintf("wipe: %v", err)
 				return
 			}
